@@ -6,7 +6,10 @@ SPEC = dict(
           "floats included - so removing them changes neither the volume nor the count; Coulomb, hydrogen-bond and backbone-"
           "reorganisation energies vanish beyond their outer cut-offs; all shipped ranges are at most 20 A (decided on the regenerated "
           "cfg); one step of the iterative scheme reads only the two groups of the interaction it processes and a group's new pKa only "
-          "the determinants it owns. The global stopping rule is not local: a four-group system whose reported pKa changes when an "
+          "the determinants it owns; hence (iterate_componentwise, by induction over iterations with the annihilation memory restricted "
+          "alongside) after the same number k of global iterations every group of a closed sub-system has the same pKa and the same "
+          "determinants in the whole system as alone, and what the solver reports for it is what the sub-system reports after some "
+          "k in 1..10 iterations (solve_componentwise_partial). The number of iterations is therefore the only coupling - and the global stopping rule does make it one: a four-group system whose reported pKa changes when an "
           "unrelated pair is added is decided over Q (known finding D11, replayed against the real solver). Metamorphic runs on the "
           "real pipeline: every group of A inside A+B equals the same group of A alone (1e-9) for B placed 30 A to 9000 A away, both "
           "file orders, different and equal chain ids, a structure with its own copy; the real solver is driven with unions of "
@@ -14,7 +17,7 @@ SPEC = dict(
     note="Partial: the locality of the whole pipeline is established phase by phase on the kernels and by metamorphic runs; the "
          "iteration-count coupling of the solver (D11) is a genuine defect that is recorded, not repaired (changing the stopping rule "
          "changes predictions for a whole class of inputs).",
-    technique="Lean 4 proof (kernel cut-off lemmas, fold invariants for any scalar, locality of the iterative step; decided counter-example) + metamorphic runs",
+    technique="Lean 4 proof (kernel cut-off lemmas, fold invariants for any scalar, locality of the iterative step and componentwise induction over iterations; decided counter-example) + metamorphic runs",
     lean=["Propka.Props.C05"],
     rule="pairs of library structures / test files (and a structure with its own copy) x separations {30, 100, 999, 1500, 9000 A nearest-atom} x "
          "both file orders x {different, same} chain ids; solver unions of 2 independent systems with tie-prone values; non-trivial = "
@@ -123,12 +126,18 @@ def run(ctx):
     for i in range(6 if ctx.quick() else 40):
         lines, ids = pdbgen.multichain(rnd, nchains=1, chains="A")
         parts.append(("frag%d" % i, [l for l in lines if not l.startswith("TER")]))
+        if i % 2 == 1:
+            # an incomplete residue (side-chain end not modelled): groups without interaction atoms take other branches
+            parts.append(("frag%d-truncated" % i, pdbgen.truncate_sidechains(rnd, parts[-1][1], rnd.randint(1, 2))))
     for n, t in pdbgen.test_files(["sample-issue-140"] if ctx.quick() else ["sample-issue-140", "3SGB-subset", "1HPX"]):
         parts.append((n, [l for l in pdbgen.lines_of(t) if pdbgen.is_atom(l) and l[17:20] != "HOH"]))
     seps = [30.0, 100.0, 999.0, 1500.0, 9000.0]
     bad, far_bad = [], []
     for k in range(10 if ctx.quick() else 120):
         (na, la), (nb, lb) = rnd.sample(parts, 2)
+        trunc = [p for p in parts if p[0].endswith("-truncated") and p[0] != nb]
+        if k % 3 == 1 and trunc:
+            na, la = rnd.choice(trunc)
         same_chain = (k % 5 == 4)
         if k % 7 == 6:
             nb, lb = na + "(copy)", list(la)
@@ -152,6 +161,8 @@ def run(ctx):
             nb_groups = len([g for g in alone_b.confs.get("1A", []) if g["use"]])
             ctx.case(key=(na, nb, sep, order, same_chain), nontrivial=na_groups > 0 and nb_groups > 0)
             ctx.count("unions at %g A" % sep)
+            if na.endswith("-truncated") or nb.endswith("-truncated"):
+                ctx.count("unions with an incomplete residue")
             if u.error:
                 (far_bad if u.error[0] == "AssertionError" or sep >= 1000 else bad).append((na, nb, sep, order, ["error %s: %s" % u.error], pdbgen.text(lines)))
                 continue
